@@ -16,7 +16,7 @@ import (
 // c17/concurrent: the conversions are plain functions of their arguments; many goroutines converting their own
 // addresses at the same time must each get their own results (valid forms parse back to the account they were
 // made from, a form with a wrong check sum is refused).
-var concurrentCheck = &core.Check{Name: "c17/concurrent", Quick: 6, Thorough: 600, Fn: func(c *core.Ctx) error {
+var concurrentCheck = &core.Check{Name: "c17/concurrent", Quick: 1, Thorough: 100, Fn: func(c *core.Ctx) error {
 	workers := c.OneOf("goroutines", 2, 4, 16, 32)
 	rounds := c.Range("rounds", 200, 1500)
 	procs := c.OneOf("gomaxprocs", 2, 4, 16)
